@@ -32,7 +32,7 @@ func TestVerifC41Sched(t *testing.T) {
 	rec := kit.Start(t, "C41", "schedules")
 	defer rec.Finish()
 	env := rec.Env
-	nDirs := env.Pick(4, 24)
+	nDirs := env.Pick(4, 12)
 	var scheds []c41Sched
 	for _, rc := range []uint{1, 2, 8} {
 		for _, gmp := range []int{1, 16} {
